@@ -5,6 +5,7 @@ import Driver.Canister
 import Driver.Transform
 import BtcModel.Model.TxCodec
 import BtcModel.Model.Endpoints
+import BtcModel.Model.EndpointsPaged
 import BtcModel.Model.BlockCodec
 import BtcModel.Spec.FeeSpec
 
@@ -157,20 +158,20 @@ def showTrap : State.CallTrap → String
 
 /-- a gated endpoint call: `(new state, result text, accepted cycles)` -/
 def endpointCall (d : DState) (s : State) (ep : String) (reqNet : Tree.Net) (avail ins : Nat)
-    (addr : State.AddrArg) (cc start : Nat) : State × String × Nat :=
+    (addr : State.AddrArg) (cc start : Nat) (flt : State.UtxosFilter) (end_ : Option Nat) : State × String × Nat :=
   let env := envOf d
   let r : State.DataReq := { reqNet := reqNet, available := avail, instructions := ins, addr := addr,
                              minConf := cc, start := start, limit := Btc.Gen.maxUtxosPerResponse }
   let showU (q : State.QResult State.UtxosResponse) : String := match q with
-    | .ok v => s!"ok {v.tipHeight}" | .err _ => "err" | .trap _ => "trap other"
+    | .ok v => s!"ok {v.tipHeight} n={v.utxos.length} next={if v.nextPage.isSome then 1 else 0}" | .err _ => "err" | .trap _ => "trap other"
   let showB (q : State.QResult Nat) : String := match q with
     | .ok v => s!"ok {v}" | .err _ => "err" | .trap _ => "trap other"
   if ep == "get_utxos" then
-    match s.callGetUtxos env r with
+    match s.callGetUtxosF env r flt with
     | .trap t => (s, showTrap t, 0)
     | .answered a acc s' => (s', showU a, acc)
   else if ep == "get_utxos_query" then
-    match s.callGetUtxosQuery env r with
+    match s.callGetUtxosQueryF env r flt with
     | .trap t => (s, showTrap t, 0)
     | .answered a acc s' => (s', showU a, acc)
   else if ep == "get_balance" then
@@ -182,9 +183,9 @@ def endpointCall (d : DState) (s : State) (ep : String) (reqNet : Tree.Net) (ava
     | .trap t => (s, showTrap t, 0)
     | .answered a acc s' => (s', showB a, acc)
   else if ep == "get_block_headers" then
-    match s.callGetBlockHeaders env r with
+    match s.callGetBlockHeadersE env r end_ with
     | .trap t => (s, showTrap t, 0)
-    | .answered (.ok (tip, _)) acc s' => (s', s!"ok {tip}", acc)
+    | .answered (.ok (tip, hs)) acc s' => (s', s!"ok {tip} n={hs.length}", acc)
     | .answered (.error _) acc s' => (s', "err", acc)
   else
     match s.callFeePercentiles env r with
@@ -265,12 +266,14 @@ def stepCanister (d : DState) (ws : List String) : DState × String :=
     ({ d with st := some s',
               thrRaisedWhilePaused := d.thrRaisedWhilePaused ||
                 (s.utxos.ingesting.isSome && s'.unstable.thr > s.unstable.thr) }, "-")
-  | ["call", ep, net, avail, ins, tok, cc, start], some s =>
+  | ["call", ep, net, avail, ins, tok, cc, start, fl, en], some s =>
     let (addrArg, amark) := addrMark s tok
-    let (s', text, acc) := endpointCall d s ep (parseNetInRequest net) avail.toNat! ins.toNat! addrArg cc.toNat! start.toNat!
+    let flt := parseFilter fl
+    let end_ : Option Nat := if en == "-" then none else some en.toNat!
+    let (s', text, acc) := endpointCall d s ep (parseNetInRequest net) avail.toNat! ins.toNat! addrArg cc.toNat! start.toNat! flt end_
     -- specification column: the same call with the network the spelling NAMES (C14/C19: the
     -- generated conversion table must not matter)
-    let (_, textN, accN) := endpointCall d s ep (parseNetByName net) avail.toNat! ins.toNat! addrArg cc.toNat! start.toNat!
+    let (_, textN, accN) := endpointCall d s ep (parseNetByName net) avail.toNat! ins.toNat! addrArg cc.toNat! start.toNat! flt end_
     ({ d with st := some s' }, s!"{text} accepted={acc} unchanged=1{amark} ## {textN} accepted={accN} unchanged=1")
   | ["sendtx", net, avail, payload], some s =>
     let bytes := if payload == "-" then [] else hexToBytes payload
